@@ -51,7 +51,7 @@ CHECKS = {
    ref='DESIGN.md section 5, C12'),
  'C13': dict(
    technique='deterministic simulation: one tape loaded under a lattice of clock-jump/engine configurations (accelerators, DEC-A, fast load, pause, cmio, C/Python, seeded accelerator-set order); literal execution is the reference',
-   text='Seeded exploration of tapes (bin2tap tapes; headerless TZX/PZX turbo blocks loaded by custom loaders built from the code signatures of 39 named accelerators) x configurations: strict group must reproduce the literal execution bit for bit (RAM, registers incl. R and absolute T, hardware state), weak group the loaded bytes, PC and SP.',
+   text='Seeded exploration of tapes (bin2tap tapes; headerless TZX/PZX turbo blocks loaded by custom loaders built from the code signatures of 39 named accelerators) x configurations: strict group must reproduce the literal execution bit for bit (RAM, registers incl. R and absolute T, hardware state), weak group the loaded bytes, PC and SP. Landing scenarios place a tape edge exactly on (or 1 T beside) an instant at which the loader samples EAR or an accelerator fast-forward ends, found by a probe execution through the LoadTracer._read_port seam.',
    note='Final state captured at simulator level by wrapping tap2sna.get_state; MEMPTR not compared; scenarios whose reference load fails are discarded and counted; accelerators outside the ROM-like family (14 of 53) are not reached by the custom loaders.',
    ref='DESIGN.md section 5, C13'),
  'C20': dict(
